@@ -106,6 +106,22 @@ def gen(rng, tier):
                 ns = len(sans)
         toks.append("san=" + ("none" if ns is None else ("." if not sans else ",".join(sans))))
         cs.append(Case("vcert " + " ".join(toks), kind="vcert", nsan=ns or 0, nterms=nt, realm=int(realm is not None)))
+    # which certificate name checks a server DISCOVERED by a lookup command is subject to: the flags of its printed block and of the
+    # template block it is merged into (the real adddynamicrealmserver .. confserver_cb .. mergesrvconf path, op dynconf)
+    for _ in range(120 if tier == "quick" else 3000):
+        opt = lambda: rng.choice([None, 0, 1])
+        tcn, tnc = rng.choice([0, 0, 1]), rng.choice([1, 1, 0])
+        bcn, bnc = opt(), opt()
+        lines = [b"  type tcp\n"] if rng.random() < 0.5 else []
+        if bcn is not None:
+            lines.append(b"  CertificateCNCheck %s\n" % (b"on" if bcn else b"off"))
+        if bnc is not None:
+            lines.append(b"  CertificateNameCheck %s\n" % (b"on" if bnc else b"off"))
+        rng.shuffle(lines)
+        block = b"server dynamic {\n  host 127.0.0.1:1\n" + b"".join(lines) + b"}\n"
+        f = lambda v: "-" if v is None else str(v)
+        cs.append(Case("dynconf %s %s %s . T2,255,255,%d,%d B%s,-,-,%s,%s" % (b"tmplsecret".hex(), rng.choice([b"bob@example.org", b"a@b.c"]).hex(), block.hex(),
+                                                                        tcn, tnc, "2" if b"type" in block else "-", f(bcn), f(bnc)), kind="dynconf-certflags", valid=1))
     return cs
 
 
